@@ -21,6 +21,13 @@ import (
 	"github.com/openfga/openfga/pkg/tuple"
 )
 
+func (e *Env) storeOf(rq gen.Request) string {
+	if rq.Store != "" {
+		return rq.Store
+	}
+	return e.StoreID
+}
+
 func consistency(hc bool) openfgav1.ConsistencyPreference {
 	if hc {
 		return openfgav1.ConsistencyPreference_HIGHER_CONSISTENCY
@@ -134,7 +141,7 @@ func (e *Env) SrvCheck(ctx context.Context, s *server.Server, rq gen.Request) (b
 
 func (e *Env) srvCheck(ctx context.Context, s *server.Server, rq gen.Request) (bool, error) {
 	resp, err := s.Check(ctx, &openfgav1.CheckRequest{
-		StoreId:              e.StoreID,
+		StoreId:              e.storeOf(rq),
 		AuthorizationModelId: e.ModelID,
 		TupleKey:             tuple.NewCheckRequestTupleKey(rq.Obj, rq.Rel, rq.User),
 		ContextualTuples:     CtxTupleKeys(rq.CtxTuples),
@@ -156,7 +163,7 @@ func (e *Env) srvListObjects(ctx context.Context, s *server.Server, rq gen.Reque
 	if streamed {
 		st := &collectStream{ctx: ctx}
 		err := s.StreamedListObjects(&openfgav1.StreamedListObjectsRequest{
-			StoreId:              e.StoreID,
+			StoreId:              e.storeOf(rq),
 			AuthorizationModelId: e.ModelID,
 			Type:                 rq.Type,
 			Relation:             rq.Rel,
@@ -168,7 +175,7 @@ func (e *Env) srvListObjects(ctx context.Context, s *server.Server, rq gen.Reque
 		return st.objs, err
 	}
 	resp, err := s.ListObjects(ctx, &openfgav1.ListObjectsRequest{
-		StoreId:              e.StoreID,
+		StoreId:              e.storeOf(rq),
 		AuthorizationModelId: e.ModelID,
 		Type:                 rq.Type,
 		Relation:             rq.Rel,
@@ -221,7 +228,7 @@ func (e *Env) srvListUsers(ctx context.Context, s *server.Server, rq gen.Request
 		ct = append(ct, t.TupleKey())
 	}
 	resp, err := s.ListUsers(ctx, &openfgav1.ListUsersRequest{
-		StoreId:              e.StoreID,
+		StoreId:              e.storeOf(rq),
 		AuthorizationModelId: e.ModelID,
 		Object:               &openfgav1.Object{Type: ot, Id: oid},
 		Relation:             rq.Rel,
@@ -261,7 +268,7 @@ type BatchOutcome struct {
 
 // SrvBatchCheck issues a BatchCheck; items get correlation ids "i0", "i1", ...
 func (e *Env) SrvBatchCheck(ctx context.Context, s *server.Server, rq gen.Request) (map[string]BatchOutcome, int, error) {
-	req := &openfgav1.BatchCheckRequest{StoreId: e.StoreID, AuthorizationModelId: e.ModelID, Consistency: consistency(rq.HC)}
+	req := &openfgav1.BatchCheckRequest{StoreId: e.storeOf(rq), AuthorizationModelId: e.ModelID, Consistency: consistency(rq.HC)}
 	for i, it := range rq.Items {
 		req.Checks = append(req.Checks, &openfgav1.BatchCheckItem{
 			TupleKey:         tuple.NewCheckRequestTupleKey(it.Obj, it.Rel, it.User),
@@ -333,7 +340,11 @@ func (e *Env) JudgeListObjects(who string, rq gen.Request, st *rm.State, got []s
 	if rel := e.Sc.Model.Rel(rq.Type, rq.Rel); rel != nil {
 		sig += " rewrite=" + RewriteShape(rel.Rewrite)
 	}
-	sig += " engine=" + []string{"classic", "weighted", "pipeline", "pipeline+weighted"}[e.Sc.Knob("lo_engine", 0)&3] + e.SigExtra
+	eng := e.LoEngine
+	if eng < 0 {
+		eng = int(e.Sc.Knob("lo_engine", 0))
+	}
+	sig += " engine=" + []string{"classic", "weighted", "pipeline", "pipeline+weighted"}[eng&3] + e.SigExtra
 	if err != nil {
 		ec := Classify(err)
 		switch {
@@ -358,7 +369,9 @@ func (e *Env) JudgeListObjects(who string, rq gen.Request, st *rm.State, got []s
 	maySet := toSet(may)
 	for _, o := range got {
 		if !maySet[o] {
-			e.Violate("object_not_permitted", sig, "%s: returned %s which does not hold the relation (got %v, permitted %v)", desc, o, sorted(got), may)
+			chk := rq
+			chk.Obj = o
+			e.Violate("object_not_permitted", sig+e.grantTags(st, chk), "%s: returned %s which does not hold the relation (got %v, permitted %v)", desc, o, sorted(got), may)
 			return
 		}
 	}
@@ -467,6 +480,118 @@ func ReachesKind(m *rm.Model, typ, rel string, kind rm.RewriteKind) bool {
 		for _, res := range r.Restrictions {
 			if res.Relation != "" {
 				stack = append(stack, node{res.Type, res.Relation})
+			}
+		}
+	}
+	return false
+}
+
+// ReachesMutualRecursion: evaluation of typ#rel can reach a cycle of the type-level dependency
+// graph that passes through at least two different relations (computed / tuple-to-userset /
+// direct-userset edges).
+func ReachesMutualRecursion(m *rm.Model, typ, rel string) bool {
+	type node struct{ t, r string }
+	succ := func(n node) []node {
+		var out []node
+		r := m.Rel(n.t, n.r)
+		if r == nil {
+			return nil
+		}
+		var walk func(rw *rm.Rewrite)
+		walk = func(rw *rm.Rewrite) {
+			switch rw.Kind {
+			case rm.Computed:
+				out = append(out, node{n.t, rw.Relation})
+			case rm.TTU:
+				if ts := m.Rel(n.t, rw.Tupleset); ts != nil {
+					for _, res := range ts.Restrictions {
+						out = append(out, node{res.Type, rw.Relation})
+					}
+				}
+			}
+			for _, c := range rw.Children {
+				walk(c)
+			}
+		}
+		walk(r.Rewrite)
+		for _, res := range r.Restrictions {
+			if res.Relation != "" {
+				out = append(out, node{res.Type, res.Relation})
+			}
+		}
+		return out
+	}
+	reach := func(from node) map[node]bool {
+		seen := map[node]bool{}
+		st := succ(from)
+		for len(st) > 0 {
+			x := st[len(st)-1]
+			st = st[:len(st)-1]
+			if seen[x] {
+				continue
+			}
+			seen[x] = true
+			st = append(st, succ(x)...)
+		}
+		return seen
+	}
+	start := node{typ, rel}
+	all := reach(start)
+	all[start] = true
+	for a := range all {
+		ra := reach(a)
+		if !ra[a] {
+			continue
+		}
+		for b := range ra {
+			if b != a && reach(b)[a] {
+				return true
+			}
+		}
+	}
+	return false
+}
+
+// SelfRecursiveUsersetUnion: some relation reachable from typ#rel is directly assignable to its own
+// userset (T#r on T#r) and has further branches besides the direct assignment.
+func SelfRecursiveUsersetUnion(m *rm.Model, typ, rel string) bool {
+	type node struct{ t, r string }
+	seen := map[node]bool{}
+	stack := []node{{typ, rel}}
+	for len(stack) > 0 {
+		n := stack[len(stack)-1]
+		stack = stack[:len(stack)-1]
+		if seen[n] {
+			continue
+		}
+		seen[n] = true
+		r := m.Rel(n.t, n.r)
+		if r == nil {
+			continue
+		}
+		var walk func(rw *rm.Rewrite)
+		walk = func(rw *rm.Rewrite) {
+			switch rw.Kind {
+			case rm.Computed:
+				stack = append(stack, node{n.t, rw.Relation})
+			case rm.TTU:
+				if ts := m.Rel(n.t, rw.Tupleset); ts != nil {
+					for _, res := range ts.Restrictions {
+						stack = append(stack, node{res.Type, rw.Relation})
+					}
+				}
+			}
+			for _, c := range rw.Children {
+				walk(c)
+			}
+		}
+		walk(r.Rewrite)
+		for _, res := range r.Restrictions {
+			if res.Relation != "" {
+				stack = append(stack, node{res.Type, res.Relation})
+				if res.Type == n.t && res.Relation == n.r && r.Rewrite.Kind != rm.This {
+					return true
+				}
 			}
 		}
 	}
